@@ -152,7 +152,7 @@ func init() {
 		})
 		Register(&Scenario{
 			Name:  name("pausewait/%s", kp),
-			Props: []string{"C09", "C06", "C01", "C04", "C17"},
+			Props: []string{"C09", "C06", "C01", "C03", "C04", "C17"},
 			Mode:  "PB", Quick: 1, Thorough: 2, Shards: 8,
 			Body: func(h *H) {
 				h.HangProp = "C06"
@@ -223,10 +223,35 @@ func init() {
 				h.End()
 			},
 		})
+		// Resume while a job is still executing: the backlog accepted during the pause must be taken up at once
+		// (free slots are not to wait for the running job to finish)
+		Register(&Scenario{
+			Name:  name("pause-resume-busy/%s", kp),
+			Props: []string{"C09", "C03", "C02"},
+			Mode:  "NB", Quick: 2, Thorough: 3, Shards: 8,
+			Body: func(h *H) {
+				h.Shape = Gated
+				w := h.NewWorker(kp.W, 2)
+				q := w.Bind(kp.Q, nil)
+				q.Add(0, AddOpt{})
+				h.Quiesce(false)
+				w.Pause()
+				q.Add(1, AddOpt{Prio: 1})
+				go func() { q.Add(2, AddOpt{Prio: 2}) }()
+				h.Quiesce(false)
+				w.Resume()
+				h.Quiesce(false)
+				if w.Inflight < 2 && w.RefState == "Running" {
+					h.viol("C09", "C09.resume-stall", "after Resume returned the jobs accepted during the pause are not taken up although a slot is free")
+				}
+				h.OpenAll(0, 1, 2)
+				h.End()
+			},
+		})
 		// plain Pause: only already dispatched jobs (fewer than the limit) may still start
 		Register(&Scenario{
 			Name:  name("pause/%s", kp),
-			Props: []string{"C09", "C01", "C04", "C17"},
+			Props: []string{"C09", "C01", "C03", "C04", "C17"},
 			Mode:  "PB", Quick: 1, Thorough: 2, Shards: 8,
 			Body: func(h *H) {
 				w := h.NewWorker(kp.W, 1)
